@@ -12,11 +12,23 @@
 //!       -> {"pointers":[[[block,byte_offset]..]..],"blocks":[[capacity,reserved]..]}     (RowBlocks::prepare_append)
 //!   {"id":..,"op":"strview","lens":[n..]}   -> {"inline":[b..],"max_inline_len":n,"string_ptr_size":n}
 //!   {"id":..,"op":"mask","cap":n,"hashes":[n..]} -> {"offsets":[..],"next":[..]}   (hash aggregate directory helpers)
+//!   {"id":..,"op":"strpred","lens":[n..]} -> {"flags":["<sv.is_inline><sv.is_reference><sp.is_inline><sp.is_reference>"..]}
+//!       the REAL StringView / StringPtr predicates for values of exactly n bytes ("p" where a constructor panics)
+//!   {"id":..,"op":"heapsizes","arrays":[{"values":[n|null..],"select":[i..]|null}..],"rows":[r..]}
+//!       -> {"sizes":[..]}   the REAL RowLayout::compute_heap_sizes over Utf8 arrays (values = byte lengths, null =
+//!       NULL; "select" puts a selection on the array) for the row selection `rows`
+//!   {"id":..,"op":"rowtrip","cols":[[n|null..]..],"block_capacity":n}
+//!       -> {"cols":[["<hex>"|null..]..],"sent":[..]}   append to a REAL RowCollection, scan back (round trip)
 //! types: the `value::parse_type` language plus null, date64, timestamp, list_i32.
 use std::io::{BufRead, Write};
 use std::panic::{AssertUnwindSafe, catch_unwind};
 
+use glaredb_core::arrays::array::Array;
+use glaredb_core::arrays::batch::Batch;
 use glaredb_core::arrays::datatype::{DataType, TimeUnit, TimestampTypeMeta};
+use glaredb_core::arrays::row::row_collection::RowCollection;
+use glaredb_core::arrays::scalar::{BorrowedScalarValue, ScalarValue};
+use glaredb_core::buffer::buffer_manager::DefaultBufferManager;
 use glaredb_core::arrays::row::aggregate_layout::AggregateLayout;
 use glaredb_core::arrays::row::row_collection::verif_prepare_append;
 use glaredb_core::arrays::row::row_layout::RowLayout;
@@ -52,6 +64,7 @@ fn types_of(v: &Value) -> Result<Vec<DataType>, String> {
 
 fn run(case: &Value) -> Result<Value, String> {
     let e = |x: glaredb_error::DbError| x.to_string().lines().next().unwrap_or("").to_string();
+    #[allow(unused_variables)]
     match case["op"].as_str().unwrap_or("") {
         "row" => {
             let types = types_of(&case["types"])?;
@@ -156,6 +169,141 @@ fn run(case: &Value) -> Result<Value, String> {
             Ok(json!({"inline": inline, "max_inline_len": MAX_INLINE_LEN,
                       "string_ptr_size": std::mem::size_of::<StringPtr>(),
                       "string_view_size": std::mem::size_of::<StringView>()}))
+        }
+        "strpred" => {
+            let flags: Vec<String> = case["lens"]
+                .as_array()
+                .ok_or("lens")?
+                .iter()
+                .map(|x| {
+                    let n = x.as_u64().unwrap_or(0) as usize;
+                    let data = vec![b'a'; n];
+                    let b = |v: bool| if v { '1' } else { '0' };
+                    let sv = catch_unwind(AssertUnwindSafe(|| {
+                        let v = if n <= MAX_INLINE_LEN {
+                            StringView::new_inline(&data)
+                        } else {
+                            StringView::new_reference(&data, 0, 0)
+                        };
+                        (v.is_inline(), v.is_reference())
+                    }));
+                    let sp = catch_unwind(AssertUnwindSafe(|| {
+                        let v = if n <= MAX_INLINE_LEN {
+                            StringPtr::new_inline(&data)
+                        } else {
+                            StringPtr::new_reference(&data)
+                        };
+                        (v.is_inline(), v.is_reference())
+                    }));
+                    let mut out = String::new();
+                    match sv {
+                        Ok((i, r)) => {
+                            out.push(b(i));
+                            out.push(b(r))
+                        }
+                        Err(_) => out.push_str("pp"),
+                    }
+                    match sp {
+                        Ok((i, r)) => {
+                            out.push(b(i));
+                            out.push(b(r))
+                        }
+                        Err(_) => out.push_str("pp"),
+                    }
+                    out
+                })
+                .collect();
+            Ok(json!({"flags": flags, "max_inline_len": MAX_INLINE_LEN}))
+        }
+        "heapsizes" => {
+            let mut arrays = Vec::new();
+            for a in case["arrays"].as_array().ok_or("arrays")? {
+                let vals = a["values"].as_array().ok_or("values")?;
+                let mut arr = Array::new(&DefaultBufferManager, DataType::utf8(), vals.len().max(1)).map_err(e)?;
+                for (i, v) in vals.iter().enumerate() {
+                    match v.as_u64() {
+                        Some(n) => {
+                            let s = "x".repeat(n as usize);
+                            arr.set_value(i, &BorrowedScalarValue::Utf8(s.as_str().into())).map_err(e)?
+                        }
+                        None => arr.set_value(i, &ScalarValue::Null).map_err(e)?,
+                    }
+                }
+                if let Some(sel) = a["select"].as_array() {
+                    let sel: Vec<usize> = sel.iter().map(|x| x.as_u64().unwrap_or(0) as usize).collect();
+                    arr.select(&DefaultBufferManager, sel.iter().copied()).map_err(e)?;
+                }
+                arrays.push(arr);
+            }
+            let rows: Vec<usize> = case["rows"]
+                .as_array()
+                .ok_or("rows")?
+                .iter()
+                .map(|x| x.as_u64().unwrap_or(0) as usize)
+                .collect();
+            let layout = RowLayout::try_new(arrays.iter().map(|_| DataType::utf8())).map_err(e)?;
+            let mut sizes = vec![0usize; rows.len()];
+            match layout.compute_heap_sizes(&arrays, rows.iter().copied(), &mut sizes) {
+                Ok(()) => Ok(json!({"sizes": sizes})),
+                Err(x) => Ok(json!({"err": e(x)})),
+            }
+        }
+        "rowtrip" => {
+            let cols = case["cols"].as_array().ok_or("cols")?;
+            let cap = case["block_capacity"].as_u64().unwrap_or(16) as usize;
+            let mut arrays = Vec::new();
+            let mut sent: Vec<Vec<Value>> = Vec::new();
+            let mut nrows = 0usize;
+            for (ci, c) in cols.iter().enumerate() {
+                let vals = c.as_array().ok_or("col")?;
+                nrows = vals.len();
+                let mut arr = Array::new(&DefaultBufferManager, DataType::utf8(), vals.len().max(1)).map_err(e)?;
+                let mut sv = Vec::new();
+                for (i, v) in vals.iter().enumerate() {
+                    match v.as_u64() {
+                        Some(n) => {
+                            let ch = (b'a' + ((i * 7 + ci * 3) % 26) as u8) as char;
+                            let s: String = std::iter::repeat(ch).take(n as usize).collect();
+                            arr.set_value(i, &BorrowedScalarValue::Utf8(s.as_str().into())).map_err(e)?;
+                            sv.push(json!(s));
+                        }
+                        None => {
+                            arr.set_value(i, &ScalarValue::Null).map_err(e)?;
+                            sv.push(Value::Null);
+                        }
+                    }
+                }
+                sent.push(sv);
+                arrays.push(arr);
+            }
+            let ncols = arrays.len();
+            let batch = Batch::from_arrays(arrays).map_err(e)?;
+            let layout = RowLayout::try_new((0..ncols).map(|_| DataType::utf8())).map_err(e)?;
+            let mut coll = RowCollection::new(layout, cap);
+            let mut st = coll.init_append();
+            // two appends of the same batch: the second lands after the first in the blocks
+            coll.append_batch(&mut st, &batch).map_err(e)?;
+            coll.append_batch(&mut st, &batch).map_err(e)?;
+            let mut scan = coll.init_full_scan();
+            let mut got: Vec<Vec<Value>> = vec![Vec::new(); ncols];
+            let mut out = Batch::new((0..ncols).map(|_| DataType::utf8()), (nrows.max(1)) * 2).map_err(e)?;
+            loop {
+                out.reset_for_write().map_err(e)?;
+                let n = coll.scan(&mut scan, &mut out).map_err(e)?;
+                if n == 0 {
+                    break;
+                }
+                for (ci, a) in out.arrays().iter().enumerate() {
+                    for r in 0..n {
+                        match a.get_value(r).map_err(e)? {
+                            BorrowedScalarValue::Null => got[ci].push(Value::Null),
+                            BorrowedScalarValue::Utf8(s) => got[ci].push(json!(s.to_string())),
+                            other => got[ci].push(json!(format!("?{other}"))),
+                        }
+                    }
+                }
+            }
+            Ok(json!({"cols": got, "sent": sent, "row_count": coll.row_count()}))
         }
         "mask" => {
             let cap = case["cap"].as_u64().ok_or("cap")?;
